@@ -3174,8 +3174,21 @@ class VM:
             if isinstance(exc, str):
                 raise JSError(exc)
             elif isinstance(exc, JSObject):
+                # The host's exception describes the thrown value: an error
+                # object by its name and message, any other object by its
+                # string conversion
+                name = exc.get("name")
                 msg = exc.get("message")
-                raise JSError(to_string(msg) if msg else "Error")
+                if isinstance(name, str) or isinstance(msg, str):
+                    raise JSError(
+                        msg if isinstance(msg, str) else "",
+                        name if isinstance(name, str) and name else "Error",
+                    )
+                try:
+                    text = self._to_string(exc)
+                except Exception:
+                    text = "[object Object]"
+                raise JSError(text)
             else:
                 raise JSError(to_string(exc))
 
